@@ -39,6 +39,15 @@ Definition pcat (p : pred) (v : list str) : bool :=
   | _ => false
   end.
 
+(** Sum<Cat>: the observable value is one string *)
+Definition pstr (p : pred) (v : str) : bool :=
+  match p with
+  | PTrue => true | PFalse => false
+  | PNotPrefix w => negb (is_prefix v w)
+  | PLenGe k => k <=? Z.of_nat (length v)
+  | _ => false
+  end.
+
 (** everything that defines one item type *)
 Record kit (T M V : Type) := Kit {
   k_merge : T -> T -> T;
@@ -89,6 +98,28 @@ Definition kit_affine : kit affine (Z * Z) (Z * Z) :=
 Definition kit_flip : kit flip unit (Z * Z) :=
   Kit fl_merge (upd_of fl_merge) fl_modify fl_push fl_default fl_eqb fl_obs sa_vmerge fl_act zz_eqb (ppair pz pz).
 
+(** element types where equal-comparing values are distinguishable: (key, id), predicates [PFst] on the key, [PSnd] on the id *)
+Definition kit_minkey : kit (Z * Z) unit (Z * Z) :=
+  Kit kmin_merge (upd_of kmin_merge) nomodify nopush keyed_max zz_eqb (fun v => v) kmin_merge noact zz_eqb (ppair pz pz).
+Definition kit_maxkey : kit (Z * Z) unit (Z * Z) :=
+  Kit kmax_merge (upd_of kmax_merge) nomodify nopush keyed_min zz_eqb (fun v => v) kmax_merge noact zz_eqb (ppair pz pz).
+Definition kit_minf : kit (Z * Z) unit (Z * Z) :=
+  Kit kmin_merge (upd_of kmin_merge) nomodify nopush f64k_max zz_eqb (fun v => v) kmin_merge noact zz_eqb (ppair pz pz).
+Definition kit_maxf : kit (Z * Z) unit (Z * Z) :=
+  Kit kmax_merge (upd_of kmax_merge) nomodify nopush f64k_min zz_eqb (fun v => v) kmax_merge noact zz_eqb (ppair pz pz).
+Definition kit_minaddkey : kit kvadd (Z * Z) (Z * Z) :=
+  Kit kminadd_merge (upd_of kminadd_merge) kva_modify kva_push (KVA keyed_max (0, 0)) kva_eqb kva_v kmin_merge kadd_act zz_eqb (ppair pz pz).
+Definition kit_maxaddkey : kit kvadd (Z * Z) (Z * Z) :=
+  Kit kmaxadd_merge (upd_of kmaxadd_merge) kva_modify kva_push (KVA keyed_min (0, 0)) kva_eqb kva_v kmax_merge kadd_act zz_eqb (ppair pz pz).
+Definition kit_sumcat : kit str unit str :=
+  Kit cat_merge (upd_of cat_merge) nomodify nopush [] str_eqb (fun v => v) cat_merge noact str_eqb pstr.
+(** Combinator<Concat, Concat>: both components non-commutative and lazy *)
+Definition kit_combcat := kit_comb kit_concat kit_concat.
+(** Combinator<Min, Combinator<Max, Sum>>: right-nested, M = () *)
+Definition kit_combunit := kit_comb kit_min (kit_comb kit_max kit_sum).
+(** Combinator<Flip, Sum>: a lazy and a non-lazy component under M = () *)
+Definition kit_combflip := kit_comb kit_flip kit_sum.
+
 Definition hist (T M : Type) : Type := list (op T M pred) * list (out T).
 
 Section Check.
@@ -129,7 +160,17 @@ Inductive case :=
 | CComb3 (h : hist ((vadd * vadd) * sumadd) Z)
 | CConcat (h : hist concat cmod)
 | CAffine (h : hist affine (Z * Z))
-| CFlip (h : hist flip unit).
+| CFlip (h : hist flip unit)
+| CMinKey (h : hist (Z * Z) unit)
+| CMaxKey (h : hist (Z * Z) unit)
+| CMinF (h : hist (Z * Z) unit)
+| CMaxF (h : hist (Z * Z) unit)
+| CMinAddKey (h : hist kvadd (Z * Z))
+| CMaxAddKey (h : hist kvadd (Z * Z))
+| CSumCat (h : hist str unit)
+| CCombCat (h : hist (concat * concat) cmod)
+| CCombUnit (h : hist (Z * (Z * Z)) unit)
+| CCombFlip (h : hist (flip * Z) unit).
 
 Definition model_check (c : case) : bool :=
   match c with
@@ -144,6 +185,16 @@ Definition model_check (c : case) : bool :=
   | CConcat h => model_check_k kit_concat h
   | CAffine h => model_check_k kit_affine h
   | CFlip h => model_check_k kit_flip h
+  | CMinKey h => model_check_k kit_minkey h
+  | CMaxKey h => model_check_k kit_maxkey h
+  | CMinF h => model_check_k kit_minf h
+  | CMaxF h => model_check_k kit_maxf h
+  | CMinAddKey h => model_check_k kit_minaddkey h
+  | CMaxAddKey h => model_check_k kit_maxaddkey h
+  | CSumCat h => model_check_k kit_sumcat h
+  | CCombCat h => model_check_k kit_combcat h
+  | CCombUnit h => model_check_k kit_combunit h
+  | CCombFlip h => model_check_k kit_combflip h
   end.
 
 Definition spec_check_gen (ca cb : bool) (c : case) : bool :=
@@ -159,6 +210,16 @@ Definition spec_check_gen (ca cb : bool) (c : case) : bool :=
   | CConcat h => spec_check_k kit_concat ca cb h
   | CAffine h => spec_check_k kit_affine ca cb h
   | CFlip h => spec_check_k kit_flip ca cb h
+  | CMinKey h => spec_check_k kit_minkey ca cb h
+  | CMaxKey h => spec_check_k kit_maxkey ca cb h
+  | CMinF h => spec_check_k kit_minf ca cb h
+  | CMaxF h => spec_check_k kit_maxf ca cb h
+  | CMinAddKey h => spec_check_k kit_minaddkey ca cb h
+  | CMaxAddKey h => spec_check_k kit_maxaddkey ca cb h
+  | CSumCat h => spec_check_k kit_sumcat ca cb h
+  | CCombCat h => spec_check_k kit_combcat ca cb h
+  | CCombUnit h => spec_check_k kit_combunit ca cb h
+  | CCombFlip h => spec_check_k kit_combflip ca cb h
   end.
 
 (** C01: every query answer and every debug() listing equals the plain array's *)
@@ -175,7 +236,13 @@ Inductive explained :=
 | EC3 (x : list (out ((vadd * vadd) * sumadd)) * list (sout ((Z * Z) * (Z * Z)) pred))
 | ECC (x : list (out concat) * list (sout (list str) pred))
 | EAF (x : list (out affine) * list (sout (Z * Z) pred))
-| EFL (x : list (out flip) * list (sout (Z * Z) pred)).
+| EFL (x : list (out flip) * list (sout (Z * Z) pred))
+| EKZ (x : list (out (Z * Z)) * list (sout (Z * Z) pred))
+| EKA (x : list (out kvadd) * list (sout (Z * Z) pred))
+| ESC (x : list (out str) * list (sout str pred))
+| ECT (x : list (out (concat * concat)) * list (sout (list str * list str) pred))
+| ECU (x : list (out (Z * (Z * Z))) * list (sout (Z * (Z * Z)) pred))
+| ECF (x : list (out (flip * Z)) * list (sout ((Z * Z) * Z) pred)).
 Definition explain (c : case) : explained :=
   match c with
   | CMin h => EZ (explain_k kit_min h)
@@ -189,4 +256,14 @@ Definition explain (c : case) : explained :=
   | CConcat h => ECC (explain_k kit_concat h)
   | CAffine h => EAF (explain_k kit_affine h)
   | CFlip h => EFL (explain_k kit_flip h)
+  | CMinKey h => EKZ (explain_k kit_minkey h)
+  | CMaxKey h => EKZ (explain_k kit_maxkey h)
+  | CMinF h => EKZ (explain_k kit_minf h)
+  | CMaxF h => EKZ (explain_k kit_maxf h)
+  | CMinAddKey h => EKA (explain_k kit_minaddkey h)
+  | CMaxAddKey h => EKA (explain_k kit_maxaddkey h)
+  | CSumCat h => ESC (explain_k kit_sumcat h)
+  | CCombCat h => ECT (explain_k kit_combcat h)
+  | CCombUnit h => ECU (explain_k kit_combunit h)
+  | CCombFlip h => ECF (explain_k kit_combflip h)
   end.
